@@ -361,3 +361,30 @@ Theorem C04_erat3_model_correct : forall l1 maxKB start stop fuelg fuel l result
             (presieve_bit (k_low sg) n = true /\ ~ In (byteof (k_low sg) n, maskof n) cleared <-> prime n)) result.
 Proof. exact erat3_model_correct. Qed.
 Print Assumptions C04_erat3_model_correct.
+
+(** EratSmall processes the sieve array in L1-sized chunks, storing and reloading each sieving prime's state between chunks:
+    for every prime, state, array size and chunk size this is the single loop over the whole array *)
+From PS Require Import Proofs.ChunksP.
+Theorem C04_cross_chunks_spec : forall steps l1 total, 1 <= l1 -> forall n fuel off sp i w cl i' w',
+  off <= total -> cross_chunks n fuel steps l1 total off sp i w = Some (cl, i', w') ->
+  exists fuel' cl0, cross fuel' steps (total - off) sp i w = Some (cl0, i', w') /\ cl = map (shift off) cl0.
+Proof. exact cross_chunks_spec. Qed.
+Print Assumptions C04_cross_chunks_spec.
+
+(** ... and with enough fuel the three-algorithm model always returns: no per-prime loop or bucket loop runs forever and no
+    store leaves buckets_, for every configuration and every interval *)
+Theorem C04_erat3_model_total : forall l1 maxKB start stop fuelg l,
+  16 <= maxKB -> maxKB <= 8192 -> 7 <= start -> start <= stop -> stop <= MAX64 ->
+  segments fuelg l1 maxKB start stop = Some l ->
+  let a := initAlgorithms l1 maxKB start stop in
+  exists fuel, sieve_loop3 fuel stop (a_maxSmall a) (a_maxMedium a) (N.log2 (a_sieveSize a)) (map to_kseg l)
+                           (primes_between 164 (N.sqrt stop)) e3_init <> None.
+Proof. exact erat3_model_total. Qed.
+Print Assumptions C04_erat3_model_total.
+
+(** SievingPrimes::tinySieve (the table from which the generator of sieving primes takes its own sieving primes) is exact on
+    the odd numbers: true iff prime, for every table size *)
+From PS Require Import Model.SievingPrimesM Proofs.SievingPrimesP.
+Theorem C04_tiny_sieve_spec : forall n m, m mod 2 = 1 -> 3 <= m -> m <= n -> (at_ (tiny_sieve n) m = true <-> prime m).
+Proof. exact tiny_sieve_spec. Qed.
+Print Assumptions C04_tiny_sieve_spec.
